@@ -1,6 +1,6 @@
 """C04 - names resolve through scopes, module, imports, context, builtins, UNDEFINED.
 
-Engine E1.  Six exhaustively enumerated families, each case executed on the
+Engine E1.  Seven exhaustively enumerated families, each case executed on the
 real Template / TemplateLookup and compared with an independent oracle:
 
   res       binding-site subsets x read sites x read styles x strict_undefined:
@@ -21,6 +21,9 @@ real Template / TemplateLookup and compared with an independent oracle:
             spelling x 24 read sites (nested-def, top-level-def and def-in-<%call> defaults, keyword-only defaults, cache_key / cache_* attribute
             expressions of defs, blocks and the page, expressions, code, control lines, call tags) x present /
             absent x strict on/off; oracle = direct formula
+  imports   compile history in one process: templates binding names through imports= (Template / TemplateLookup)
+            or <%! %>, before and after templates that read the same names from the context (6 read sites x
+            present/absent x strict); each operation has a history-free oracle, failures carry their prelude
 """
 
 import itertools
@@ -61,6 +64,7 @@ BOUNDS = {
                   "{after, before} + 23 statement binders x {after, before}; x container {body, top-level def} x name {present, absent} x strict on/off",
         "reserved": "4 names x 6 entry points x 3 enable_loop configurations; 4 names x 15 assignment forms x 3 scopes x 3 configurations",
         "kwargs": "10 positions x 4 entry points x 3 argument sets",
+        "imports": "one sequence per run: 28 reader operations, 20 binder operations, the readers again, the binders again (96 operations in one process)",
         "flagname": "24 read sites x 10 spellings (9 escape-flag names + control) x {present, absent} x strict on/off, minus str-present",
     },
     "thorough": {
@@ -70,6 +74,7 @@ BOUNDS = {
         "reread": "as quick x container {body, top-level def, nested def, anonymous block, call body}",
         "reserved": "as quick + 5 scopes",
         "kwargs": "as quick",
+        "imports": "one sequence per run: 28 reader operations, 20 binder operations, the readers again, the binders again (96 operations in one process)",
         "flagname": "24 read sites x 10 spellings (9 escape-flag names + control) x {present, absent} x strict on/off, minus str-present",
     },
 }
@@ -100,6 +105,9 @@ ASSUMPTIONS = [
     "the reference interpreter implements the order given in the statement (DESIGN Appendix A2); CPython exec, symtable and str are trusted",
     "a def reached through self. and a named block see the plain render context (documented), only defs called by bare name from the body see the overlay",
     "test names never collide with def names, default-filter names or the names self/local/parent/next/caller/capture/pageargs",
+    "process history: workers are long-lived; order dependence is examined in the imports family only (names bound by imports= / <%! %> in "
+    "one template, read from the context by another, both orders, one process); a failing operation is re-run in a fresh interpreter alone "
+    "and after each earlier operation (core.find_prelude) and is reported with that prelude",
     "hash order fixed (PYTHONHASHSEED=0); one render per entry point per compiled template",
     "DONT_CARE: a def/page/block parameter spelled like a reserved name is not an assignment in the statement's sense: not generated",
     "DONT_CARE: under strict_undefined only the class NameError and the quoted variable name are demanded, not the place in the callable "
@@ -995,6 +1003,133 @@ def check_flag(al, c, st, sites=None):
 
 
 # --------------------------------------------------------------------------
+# family imports: compile history inside one process.  Templates whose module-level names come from the `imports=`
+# option (of Template / of TemplateLookup) or from a <%! %> block are compiled before and after templates that read
+# the SAME names from the context.  Every operation has its own, history-free oracle (a formula); one job runs the
+# whole sequence readers, binders, readers, binders in a single worker.  A failing operation is located with
+# core.find_prelude (fresh interpreter: alone, then after each earlier operation) and carries that prelude.
+
+MODNAME = "mc.props.c04"
+IMP_READ_SITES = {
+    "body": "[${sh(N)}]",
+    "toplevel-def": '${f()}<%def name="f()">[${sh(N)}]</%def>',
+    "nested-def": '${f()}<%def name="f()"><%def name="inner()">[${sh(N)}]</%def>${inner()}</%def>',
+    "code-block": "<% zq = N %>[${sh(zq)}]",
+    "control-line": "% for it in [N]:\n[${sh(it)}]\n% endfor\n",
+    "body-with-own-module-block": "<%! zz = 1 %>[${sh(N)}]",
+}
+IMP_BINDERS = ["template-imports", "template-imports+module-block", "lookup-imports", "lookup-imports+module-block", "module-block"]
+
+
+def imports_ops(al):
+    n1, n2 = "i" + al.name, "j" + al.name2
+    readers = []
+    for site in IMP_READ_SITES:
+        for which in ((1, 2) if site == "body" else (1,)):
+            for present in (True, False):
+                for strict in (False, True):
+                    readers.append({"role": "reader", "site": site, "which": which, "present": present, "strict": strict})
+    binders = []
+    for kind in IMP_BINDERS:
+        for reads in (True, False):
+            for present in (True, False):
+                binders.append({"role": "binder", "kind": kind, "reads": reads, "present": present})
+    # clean readers, binders after readers, readers after binders, binders after binders and readers
+    return readers + binders + readers + binders, (n1, n2)
+
+
+def check_imports_op(al, op, st):
+    """run one operation against its history-free oracle.  -> None | (sig-part, expected, observed, source)"""
+    import builtins
+    from mako.template import Template
+    from mako.lookup import TemplateLookup
+
+    n1, n2 = "i" + al.name, "j" + al.name2
+    st.evaluations += 1
+    st.transitions += 1
+    st.oracles["imports"] += 1
+    ctx = {"sh": env.show}
+    if op["role"] == "reader":
+        name = n1 if op["which"] == 1 else n2
+        src = IMP_READ_SITES[op["site"]].replace("N", name)
+        if op["present"]:
+            ctx[name] = "CB" + al.sfx
+            exp = ("out", "[CB%s]" % al.sfx)
+        elif op["strict"]:
+            exp = ("exc", "NameError", "'%s' is not defined" % name, [name])
+        else:
+            exp = ("out", "[U]")
+        if op["site"] == "control-line" and exp[0] == "out":
+            exp = ("out", exp[1] + "\n")
+        try:
+            obs = ("out", Template(src, strict_undefined=op["strict"]).render_unicode(**ctx))
+        except Exception as e:  # noqa
+            obs = ("exc", type(e).__name__, str(e))
+        what = "reader:" + op["site"]
+    else:
+        kind = op["kind"]
+        lines = ["from os import sep as %s" % n1, "import os.path as %s" % n2]
+        block = "<%%! %s = 'M' %%>" % n1 if kind == "module-block" else ("<%! zz = 1 %>" if kind.endswith("+module-block") else "")
+        src = block + ("[${sh(%s)}]" % n1 if op["reads"] else "[a]")
+        if op["present"]:
+            ctx[n1] = "CB" + al.sfx
+        # a module-level name (imports= or <%! %>) wins over the context
+        import os
+
+        val = "M" if kind == "module-block" else os.sep
+        exp = ("out", "[%s]" % val if op["reads"] else "[a]")
+        try:
+            if kind.startswith("template-imports"):
+                t = Template(src, imports=lines)
+            elif kind.startswith("lookup-imports"):
+                lk = TemplateLookup(imports=lines)
+                lk.put_string("m.html", src)
+                t = lk.get_template("m.html")
+            else:
+                t = Template(src)
+            obs = ("out", t.render_unicode(**ctx))
+        except Exception as e:  # noqa
+            obs = ("exc", type(e).__name__, str(e))
+        what = "binder:" + kind
+    st.outcomes[("imports", op["role"], exp[1] if exp[0] == "exc" else "out", obs[1] if obs[0] == "exc" else "out")] += 1
+    if agrees(exp, obs, op.get("strict", False)):
+        return None
+    if obs[0] == "exc" and obs[1] == "NameError" and obs[2].startswith("name '"):
+        sym = "NameError(not-fetched)"
+    else:
+        sym = "exp=%s:obs=%s" % (exp[1] if exp[0] == "exc" else "out", obs[1] if obs[0] == "exc" else "out")
+    return (what + ":" + sym, exp, obs, src)
+
+
+def run_imports_family(al, st):
+    ops, _names = imports_ops(al)
+    history = []
+    per_sig = {}
+    for op in ops:
+        case = {"fam": "imports", "op": op, "seed": al.seed}
+        r = check_imports_op(al, op, st)
+        st.states += 1
+        st.nontrivial += 1
+        st.traces += 1
+        if r is not None:
+            part, exp, obs, src = r
+            per_sig[part] = per_sig.get(part, 0) + 1
+            if per_sig[part] <= 2:
+                # does it fail alone, or only after an earlier operation of this process?
+                prelude = core.find_prelude(MODNAME, case, history, max_tries=len(IMP_BINDERS) * 4 + 8)
+                if prelude is None:
+                    st.extra.setdefault("harness_errors", []).append("imports: failure not reproducible in a fresh interpreter: %r" % (case,))
+                else:
+                    after = ":after an earlier " + (prelude[0]["op"].get("kind") or "reader") if prelude else ""
+                    st.violation("imports:" + part + after, dict(case, prelude=prelude, template=src), "history-free formula", expected=list(exp), observed=list(obs))
+            else:
+                st.extra["imports_failures_not_listed"] = st.extra.get("imports_failures_not_listed", 0) + 1
+        history.append(case)
+    st.extra["imports_ops"] = len(ops)
+    st.sample({"fam": "imports", "sequence": "readers, binders, readers, binders", "ops": len(ops), "first_binder": ops[[o["role"] for o in ops].index("binder")]})
+
+
+# --------------------------------------------------------------------------
 # family kwargs
 
 KW_POS = ["body", "def", "selfdef", "nested", "anon", "named", "callbody", "nsdef", "include", "after-mutation"]
@@ -1097,6 +1232,7 @@ def plan(tier, seed):
     jobs.append({"kind": "reserved", "tier": tier, "seed": seed})
     jobs.append({"kind": "kwargs", "tier": tier, "seed": seed})
     jobs.append({"kind": "flagname", "tier": tier, "seed": seed})
+    jobs.append({"kind": "imports", "tier": tier, "seed": seed})
     return jobs
 
 
@@ -1150,6 +1286,8 @@ def _run_job(job, st):
             st.states += 1
             st.nontrivial += 1
         st.extra["kwargs_cases"] = st.states
+    elif kind == "imports":
+        run_imports_family(al, st)
     elif kind == "flagname":
         for c in flag_cases(al):
             check_flag(al, c, st)
@@ -1162,7 +1300,7 @@ def _run_job(job, st):
 
 def post(tier, seed, st):
     walls = st.extra.pop("job_walls", [])
-    for k in ("res", "stmt", "reread", "reserved", "kwargs", "flagname"):
+    for k in ("res", "stmt", "reread", "reserved", "kwargs", "flagname", "imports"):
         st.extra.pop("job_wall_max_s_" + k, None)
     st.extra["slowest_job_wall_s"] = max([w[2] for w in walls] or [0])
     st.extra["alphabet"] = {k: v for k, v in Alpha(seed).__dict__.items()}
@@ -1182,6 +1320,11 @@ def replay(case):
         check_kwargs(case["c"], st)
     elif fam == "flagname":
         check_flag(Alpha(case["seed"]), case["c"], st)
+    elif fam == "imports":
+        r = check_imports_op(Alpha(case["seed"]), case["op"], st)
+        if r is not None:
+            return False, "reproduced: %r" % (r,)
+        return True, "holds"
     else:
         return None, "unknown case"
     if st.violations:
